@@ -96,6 +96,10 @@ func genFile(t *rapid.T) File {
 	if rapid.IntRange(0, 3).Draw(t, "declared") == 0 {
 		f.Declared = rapid.SampledFrom(declaredTypes).Draw(t, "ct")
 	}
+	f.Source = rapid.SampledFrom([]string{"", "", "", "", "seeker", "seeker", "osfile"}).Draw(t, "source")
+	if rapid.IntRange(0, 3).Draw(t, "partly-consumed") == 0 {
+		f.Skip = rapid.SampledFrom([]int{1, 3, 16, 511, 512, 513, 700}).Draw(t, "skip")
+	}
 	return f
 }
 
@@ -493,6 +497,15 @@ func Classify(c Case) (bool, []string) {
 			}
 			if nonASCII(base) {
 				lab["file name non-ASCII"] = true
+			}
+			if f.Source != "" {
+				lab["file source: "+f.Source] = true
+			}
+			if f.Skip > 0 {
+				lab["file source partly consumed before hand-over"] = true
+				if f.Source != "" {
+					nt = true
+				}
 			}
 			if f.Declared != "" {
 				lab["declared content type"] = true
